@@ -13,6 +13,12 @@
 (*   [t |-> 15, pref, name]  [t |-> other, data]  (generic form).           *)
 (* Names are sequences of labels (octet sequences), absolute.               *)
 (*                                                                          *)
+(* Further down: zones (several records, one FormatWriter with newline() or  *)
+(* a writer per record, read by a configured reader: ReadCfg, ExpectedZone,  *)
+(* ZoneRoundTrip), the token route (RdTokens / ReadTokens: record data as a  *)
+(* token list for IterScanner), and field texts on their own (LabelFromStr,  *)
+(* CharStrFromStr).                                                          *)
+(*                                                                          *)
 (* Deviations (writer side; the reader's are those of ZoneFile.tla):        *)
 (*   D_label_escape_set  Display for Label escapes only ' ', '.', '\' and   *)
 (*                       non-printables; the reader also treats '"', ';',   *)
